@@ -22,7 +22,9 @@ func main() {
 	replay := fs.String("replay", "", "replay the histories of this cases.json instead of generating")
 	slow := fs.Int("slow", 1, "settle-time multiplier (confirmation runs use 10)")
 	mode := fs.String("mode", "", "property-specific mode")
+	chunk := fs.Int("chunk", 1500, "cases per generated Coq file")
 	fs.Parse(os.Args[2:])
+	caseChunk = *chunk
 	opt := Opts{Seed: *seed, N: *n, Out: *out, Replay: *replay, Slow: *slow, Mode: *mode}
 	silenceStdout()
 	var err error
@@ -31,6 +33,8 @@ func main() {
 		err = runC09(opt)
 	case "c17":
 		err = runC17(opt)
+	case "sm":
+		err = runSM(opt)
 	default:
 		err = fmt.Errorf("unknown property %s", prop)
 	}
